@@ -8,7 +8,9 @@ for f in sorted(glob.glob(os.path.join(V, "seeded", "*", "meta.json"))):
     notes = open(os.path.join(os.path.dirname(f), "notes.md")).read() if os.path.exists(os.path.join(os.path.dirname(f), "notes.md")) else ""
     title = next((l.strip("# ").strip() for l in notes.splitlines() if l.strip()), "")[:110]
     sigs = "; ".join(f"{c}: {', '.join(v['signatures'][:2])}" for c, v in m["checks"].items() if v.get("exit") == 1) or "—"
-    first = "no" if "missed by the first version" in m.get("note", "") else "yes"
+    note = m.get("note", "").lower()
+    first = ("no" if ("missed" in note or "does not see it" in note) else
+             "reported without a failing input" if "first evaluation" in note else "yes")
     rows.append(f"| {m['id']} | {title} | {'caught' if m['detected'] else 'MISSED'} | {first} | {sigs} |")
 print("| id | seeded change (first line of its notes) | now | caught by the check as first built | failing signatures |")
 print("|---|---|---|---|---|")
